@@ -658,7 +658,17 @@ impl<'a> Sup<'a> {
             libc::SYS_renameat2 => two_paths!("renameat2", a[0], a[1], a[2], a[3]),
             libc::SYS_linkat => two_paths!("linkat", a[0], a[1], a[2], a[3]),
             libc::SYS_read => on_fd!("read"),
-            libc::SYS_write => on_fd!("write"),
+            libc::SYS_write => {
+                let fd = a[0] as i32;
+                if (fd == 1 || fd == 2) && !self.fds.contains_key(&fd) {
+                    // output of the program itself (log lines with -v, the client's printing): no effect on the
+                    // sandbox, but a pre-emption point wherever the code logs
+                    name = "write:stdio";
+                    p.fd = fd;
+                } else {
+                    on_fd!("write")
+                }
+            }
             libc::SYS_pread64 => on_fd!("pread64"),
             libc::SYS_pwrite64 => on_fd!("pwrite64"),
             libc::SYS_readv => on_fd!("readv"),
